@@ -136,6 +136,8 @@ func C16(p *an.Prog, r *an.Report) {
 			for _, l := range sl.LeavesInContext(chains[0][:len(chains[0])-1], site.Common().Args[0]) {
 				if !(l.Kind == an.LParam && l.Param == 1) {
 					bad = append(bad, "secret origin "+l.String()+" is not the secret parameter")
+				} else if l.Sliced || l.Path != "" {
+					bad = append(bad, "the secret is narrowed before derivation ("+l.String()+"): part of the caller's secret does not take part")
 				}
 			}
 			r.Check(len(bad) == 0, "C16.X2", "DeriveBlindingFactor-site", p.Pos(site.Pos()), "blinding factor = DeriveBlindingFactor(secret, date.UTC().Format(\"2006-01-02\"))", bad...)
@@ -354,6 +356,59 @@ func c16Layout(p *an.Prog, r *an.Report) {
 		}
 		if dec == nil {
 			dec = site.Parent() // components are sliced in the same function
+		}
+	}
+	// X7: both sides authenticate the same associated data on every path (nil on both, or the same
+	// role of argument on both, unconditionally)
+	{
+		adOrigins := func(root *ssa.Function, name string, argIdx int) ([]string, bool) {
+			chs := callChains(p, root, isAEAD(name), nil, 4)
+			if len(chs) != 1 {
+				return nil, false
+			}
+			site := chs[0][len(chs[0])-1]
+			args := site.Common().Args
+			if argIdx >= len(args) {
+				return nil, false
+			}
+			sl := &an.Slicer{P: p, Root: root, Through: an.AllArgs}
+			set := map[string]bool{}
+			for _, l := range sl.LeavesInContext(chs[0][:len(chs[0])-1], args[argIdx]) {
+				switch l.Kind {
+				case an.LConst:
+					set["const "+l.Name] = true
+				case an.LParam:
+					role := fmt.Sprintf("param %d", l.Param)
+					if l.Param < len(root.Params) {
+						nm := strings.ToLower(root.Params[l.Param].Name())
+						if strings.Contains(nm, "cookie") {
+							role = "cookie"
+						}
+					}
+					if l.Sliced || l.Path != "" {
+						role += " (part)"
+					}
+					set[role] = true
+				default:
+					set[l.String()] = true
+				}
+			}
+			var out []string
+			for k := range set {
+				out = append(out, k)
+			}
+			sort.Strings(out)
+			return out, true
+		}
+		// receiver first: Encrypt(recv, plaintext, ad, nonce), Decrypt(recv, ciphertext, tag, ad, nonce)
+		eo, ok1 := adOrigins(encTop, "Encrypt", 2)
+		do, ok2 := adOrigins(top, "Decrypt", 3)
+		if !ok1 || !ok2 {
+			r.Ob("C16.X7", "aead-associated-data", "-", an.Undecided, "could not locate the single AEAD seal/open call")
+		} else {
+			same := strings.Join(eo, ";") == strings.Join(do, ";") && len(eo) == 1
+			r.Check(same, "C16.X7", "aead-associated-data", p.FnPos(top), "encryption and decryption authenticate the same associated data on every path",
+				"encrypt side: "+strings.Join(eo, ", "), "decrypt side: "+strings.Join(do, ", "))
 		}
 	}
 	if enc == nil || dec == nil {
